@@ -99,3 +99,10 @@ Lemma bridge_len d s n r data reason b0 b1 b2 b3 sk :
   plen (mkPdu PT_FRMR d s n r [b0; b1; b2; b3]) = gen_c10_len_frmr /\
   plen (mkPdu PT_DISC d s n r []) = gen_c10_len_disc.
 Proof. repeat split; try reflexivity. unfold ack. destruct (busy sk); reflexivity. Qed.
+
+(* ---- pdu.py: the MIU learnt from a MIUX TLV (Parameter.decode) in PAX / CONNECT / CC ---- *)
+Lemma bridge_miux V :
+  miux_decode V = (if negb (gen_c10_miux_reserved V =? 0) then gen_c10_miux_masked V else V) /\
+  learn_miu (Some V) = gen_c10_connect_miu (miux_decode V) /\ learn_miu (Some V) = gen_c10_cc_miu (miux_decode V) /\
+  learn_miu (Some V) = gen_c10_pax_miu (miux_decode V).
+Proof. repeat split; try reflexivity. unfold learn_miu, gen_c10_pax_miu. lia. Qed.
